@@ -8,7 +8,7 @@ use rink_core::ast::Expr;
 use rink_core::{Context, Value};
 use serde_json::json;
 
-const GLOBAL: [&str; 7] = [
+const GLOBAL: [&str; 8] = [
     "loads without errors or warnings and prints nothing",
     "two independent loads give identical databases",
     "quantities are one-to-one with dimensionalities",
@@ -16,6 +16,7 @@ const GLOBAL: [&str; 7] = [
     "every category entry belongs to an existing name and has a display name",
     "no temporaries are left behind",
     "prefix table has no duplicates and every long prefix is also a unit",
+    "queries and lookups between the two loads do not change what the overlay load produces",
 ];
 
 pub struct C08 {
@@ -219,7 +220,7 @@ impl Space for C08 {
         Meta {
             id: "C08",
             level: "exploration",
-            rule: "every name of the loaded registry (all units and all stored definitions), in both configurations (bundled definitions; bundled + currency.units + currency snapshot): the stored value equals Context::eval of the stored definition, its dimensionality uses declared base units only, alias chains end at a real definition; plus every prefix line of the bundled files (text re-read with rink's parser, evaluated by the runtime evaluator in the loaded context, compared with the prefix table and, for long prefixes, with the unit of the same name); plus every quantity line `name ? expr`: the stored dimensionality must be the one an own exponent-vector evaluation of the expression over the loaded quantity table gives; plus seven whole-database checks (silent error-free load with fd 1 captured, identical Debug dumps of two loads, quantity injectivity, doc/category ownership, no temporaries, prefix table). Non-trivial = the name exists in that configuration; distinct by (config, name/check)".into(),
+            rule: "every name of the loaded registry (all units and all stored definitions), in both configurations (bundled definitions; bundled + currency.units + currency snapshot): the stored value equals Context::eval of the stored definition, its dimensionality uses declared base units only, alias chains end at a real definition; plus every prefix line of the bundled files (text re-read with rink's parser, evaluated by the runtime evaluator in the loaded context, compared with the prefix table and, for long prefixes, with the unit of the same name); plus every quantity line `name ? expr`: the stored dimensionality must be the one an own exponent-vector evaluation of the expression over the loaded quantity table gives; plus eight whole-database checks (silent error-free load with fd 1 captured, identical Debug dumps of two loads, quantity injectivity, doc/category ownership, no temporaries, prefix table, overlay loaded after the context has been queried). Non-trivial = the name exists in that configuration; distinct by (config, name/check)".into(),
             assumptions: vec!["`Debug` output of Registry shows every field (derive(Debug))".into()],
             exhaustive: true,
             extra: json!({"families": self.fams.summary(), "whole_database_checks": GLOBAL}),
@@ -313,6 +314,38 @@ impl Space for C08 {
                         }
                         if !r.category_names.contains_key(cat) {
                             out = out.viol("category without display name", format!("{} in {}", k, cat));
+                        }
+                    }
+                }
+                7 => {
+                    // the CLI answers queries while the live currency data is still being fetched:
+                    // the overlay then arrives on a context that has already been asked about it
+                    if c == 0 {
+                        return out;
+                    }
+                    let mut ctx2 = Context::new();
+                    ctx2.use_humanize = false;
+                    let r0 = ctx2.load_definitions(rink_core::DEFAULT_FILE.unwrap());
+                    ctx2.load_date_file(rink_core::DATES_FILE.unwrap());
+                    for q in ["3 USD", "USD", "1 EUR -> USD", "fin", "5 dollar", "bitcoin", "1 BTC", "cent", "$", "units for money", "3 m"] {
+                        let _ = ctx2.lookup(q);
+                        let _ = crate::common::eval_q(&ctx2, q);
+                        let _ = ctx2.canonicalize(q);
+                    }
+                    let r1 = ctx2.load_currency(CURRENCY_JSON, rink_core::CURRENCY_FILE.unwrap());
+                    if r0.is_err() || r1.is_err() {
+                        out = out.viol("the currency overlay loads with errors after the context has been queried", engine::util::clip(&format!("{:?} {:?}", r0.err(), r1.err()), 500));
+                    }
+                    let (a, b) = (format!("{:?}", ctx.registry), format!("{:?}", ctx2.registry));
+                    if a != b {
+                        let at = a.bytes().zip(b.bytes()).position(|(x, y)| x != y).unwrap_or(a.len().min(b.len()));
+                        let lo = at.saturating_sub(80);
+                        out = out.viol("the database depends on queries made between the two loads", format!("...{}... versus ...{}...", engine::util::clip(&a[lo..], 200), engine::util::clip(&b[lo..], 200)));
+                    }
+                    for q in ["3 USD", "fin", "1 BTC -> USD"] {
+                        let (x, y) = (crate::common::eval_q(&ctx, q).map(|r| r.to_string()).map_err(|e| e.to_string()), crate::common::eval_q(&ctx2, q).map(|r| r.to_string()).map_err(|e| e.to_string()));
+                        if x != y {
+                            out = out.viol("answers depend on queries made between the two loads", format!("`{}`: {:?} versus {:?}", q, x, y));
                         }
                     }
                 }
